@@ -1,4 +1,5 @@
 import EbisimProofs.Lemmas.MaxPrinciple
+import Mathlib.Analysis.SpecialFunctions.Log.Deriv
 
 /-! # C12 — radial Poisson solver: exact on quadratics, grounded at the wall, linear
 
@@ -438,6 +439,73 @@ theorem gauss_law_potential_uniform (r0 r1 : ℝ) (rest rho : List ℝ) (h01 : r
   rw [getD_eq_getElem'' _ _ _ (by omega), getD_eq_getElem'' _ _ _ (by omega), getD_eq_getElem'' _ _ _ (by omega),
     getD_eq_getElem'' _ _ _ (by omega)]
   exact g
+
+/-- `ln((i+1)/i)` and the finite-difference flux step `1/(i+½)` agree to third order: with `t = 1/(2i+1)`,
+`(i+1)/i = (1+t)/(1−t)` and `ln(1+t) − ln(1−t) = 2t + 2t³/3 + O(t⁴)` -/
+theorem log_ratio_flux_step (i : ℕ) (hi : 1 ≤ i) :
+    |Real.log (((i : ℝ) + 1) / i) - 1 / ((i : ℝ) + 1 / 2)| ≤ 1 / (4 * (i : ℝ) ^ 3) := by
+  have hiR : (1 : ℝ) ≤ i := by exact_mod_cast hi
+  set t : ℝ := 1 / (2 * (i : ℝ) + 1) with ht
+  have ht0 : 0 < t := by rw [ht]; positivity
+  have ht3 : t ≤ 1 / 3 := by
+    rw [ht, div_le_div_iff₀ (by positivity) (by norm_num)]; linarith
+  have habs : |t| < 1 := by rw [abs_of_pos ht0]; linarith
+  have habs' : |-t| < 1 := by rw [abs_neg]; exact habs
+  -- (i+1)/i = (1+t)/(1-t)
+  have hratio : ((i : ℝ) + 1) / i = (1 + t) / (1 - t) := by
+    rw [ht]; field_simp; ring
+  have h1t : 0 < 1 - t := by linarith
+  have h1t' : 0 < 1 + t := by linarith
+  rw [hratio, Real.log_div h1t'.ne' h1t.ne']
+  have e2 : 1 / ((i : ℝ) + 1 / 2) = 2 * t := by rw [ht]; field_simp
+  rw [e2]
+  have b1 := Real.abs_log_sub_add_sum_range_le habs 3
+  have b2 := Real.abs_log_sub_add_sum_range_le habs' 3
+  simp only [Finset.sum_range_succ, Finset.sum_range_zero, abs_neg, abs_of_pos ht0] at b1 b2
+  norm_num at b1 b2
+  have hb1 := abs_le.mp b1
+  have hb2 := abs_le.mp b2
+  have hq : t ^ 4 / (1 - t) ≤ t ^ 3 / 2 := by
+    rw [div_le_div_iff₀ h1t (by norm_num)]
+    have : t ^ 4 * 2 = t ^ 3 * (2 * t) := by ring
+    rw [this]
+    apply mul_le_mul_of_nonneg_left _ (by positivity)
+    linarith
+  have ht3' : t ^ 3 ≤ 1 / (8 * (i : ℝ) ^ 3) := by
+    rw [ht, div_pow, one_pow, div_le_div_iff₀ (by positivity) (by positivity)]
+    have : 2 * (i : ℝ) ≤ 2 * i + 1 := by linarith
+    calc 1 * (8 * (i : ℝ) ^ 3) = (2 * i) ^ 3 := by ring
+      _ ≤ (2 * (i : ℝ) + 1) ^ 3 := by gcongr
+      _ = 1 * (2 * (i : ℝ) + 1) ^ 3 := by ring
+  have hfin : 1 / (4 * (i : ℝ) ^ 3) = 2 * (1 / (8 * (i : ℝ) ^ 3)) := by field_simp; ring
+  rw [abs_le, hfin]
+  constructor <;> nlinarith [hb1.1, hb1.2, hb2.1, hb2.2, pow_pos ht0 3]
+
+/-- **the potential follows the logarithmic Gauss-law potential outside the charge** (uniform grids): with
+`F = (K − ½)(φ_K − φ_{K−1})` the flux through the face just inside the first charge-free node `K` (the enclosed
+line charge, `gauss_flux_conserved`), every step of the computed solution outside the charge differs from the
+step `F·ln(r_{i+1}/r_i) = F·ln((i+1)/i)` of the logarithmic potential with that line charge by at most
+`|F| / (4 i³)` — third order in the inverse node index, i.e. second-order agreement of the potentials -/
+theorem gauss_log_potential (r0 r1 : ℝ) (rest b x : List ℝ) (h01 : r0 < r1)
+    (hb : b.length = rest.length + 2) (hx : x.length = rest.length + 2)
+    (hsol : mulTri 0 (withRhs (fdUniform (r0 :: r1 :: rest)) b) x = b)
+    (K : ℕ) (hK : 1 ≤ K) (hzero : ∀ i, K ≤ i → ∀ h : i < b.length, b[i] = 0)
+    (i : ℕ) (hKi : K ≤ i) (h : i + 1 < rest.length + 2) :
+    |(x.getD (i + 1) 0 - x.getD i 0)
+        - ((K : ℝ) - 1 / 2) * (x.getD K 0 - x.getD (K - 1) 0) * Real.log (((i : ℝ) + 1) / i)|
+      ≤ |((K : ℝ) - 1 / 2) * (x.getD K 0 - x.getD (K - 1) 0)| / (4 * (i : ℝ) ^ 3) := by
+  have hflux := gauss_flux_conserved r0 r1 rest b x h01 hb hx hsol K hK hzero i hKi h
+  set F := ((K : ℝ) - 1 / 2) * (x.getD K 0 - x.getD (K - 1) 0) with hF
+  have hi1 : 1 ≤ i := by omega
+  have hpos : (0 : ℝ) < (i : ℝ) + 1 / 2 := by positivity
+  have hstep : x.getD (i + 1) 0 - x.getD i 0 = F * (1 / ((i : ℝ) + 1 / 2)) := by
+    rw [← hflux]; field_simp
+  have hl := log_ratio_flux_step i hi1
+  rw [hstep, ← mul_sub, abs_mul]
+  calc |F| * |1 / ((i : ℝ) + 1 / 2) - Real.log (((i : ℝ) + 1) / i)|
+      ≤ |F| * (1 / (4 * (i : ℝ) ^ 3)) :=
+        mul_le_mul_of_nonneg_left (by rw [abs_sub_comm]; exact hl) (abs_nonneg _)
+    _ = |F| / (4 * (i : ℝ) ^ 3) := by ring
 
 /-! ### non-vacuity -/
 example : GridOk [0, 1, 3] := by
